@@ -64,7 +64,32 @@ class C01(HistoryProperty):
             for n in spec["nodes"]:
                 if n["k"] == "dataset" and n.get("cache", "default") == "default":
                     n["cache"] = "shared_factory"
+        routed = None
+        if rng.random() < 0.12:
+            # routed-selector gadget: a default-less switch under DEFAULT options that route its selector's key to another key
+            # the caller can set ('M': '{B}', 'B': <a value of the lookup>), as a coalesce member below a caching dataset.  Whether
+            # the member or the fall-back is taken is decided by B, which only the overlaid dictionary connects to the selector.
+            k0 = len(spec["nodes"])
+            good = rng.choice(["a", "b", 1])
+            spec["nodes"] += [
+                {"k": "opt", "key": "M", "id": f"z{k0}"},
+                {"k": "val", "v": "fast", "id": f"z{k0 + 1}"},
+                {"k": "switch", "dispatch": {"n": f"z{k0}"}, "lookup": [[good, f"z{k0 + 1}"]], "default": None, "id": f"z{k0 + 2}"},
+                {"k": "withopts", "inner": f"z{k0 + 2}", "options": {"M": "{B}", "B": good}, "force": rng.random() < 0.3, "id": f"z{k0 + 3}"},
+                {"k": "val", "v": "fallback", "id": f"z{k0 + 4}"},
+                {"k": "coalesce", "members": [f"z{k0 + 3}", f"z{k0 + 4}"], "id": f"z{k0 + 5}"},
+                {"k": "dataset", "name": "ROUTED", "args": {"a": f"z{k0 + 5}"}, "id": f"z{k0 + 6}"},
+            ]
+            spec["roots"] = spec["roots"] + [f"z{k0 + 6}"]
+            routed = (f"z{k0 + 6}", good)
         ops = gen_history(rng, cfg, spec)
+        if routed:
+            other = rng.choice([x for x in ["a", "b", 1, 2, "zzz"] if x != routed[1]])
+            base = {k: v for k, v in rng.choice(ops)["o"].items() if k not in ("B", "M")} if ops and rng.random() < 0.5 else {}
+            trio = [dict(base), dict(base, B=other), dict(base, B=routed[1]), dict(base)]
+            rng.shuffle(trio)
+            at = rng.randrange(len(ops) + 1)
+            ops[at:at] = [{"op": "evaluate", "node": routed[0], "o": o, "mut": "routed-selector"} for o in trio]
         if cfg["mutating_bodies"]:
             # ... followed by the dictionary that LOOKS like what such a body leaves behind (had the body been handed the
             # caller's own list / section, the first result would be filed under this one's fingerprint)
